@@ -219,7 +219,17 @@ def run(ctx):
     run_models(ctx)
     ctx.exhaustive = ctx.tier == "thorough"
 
-    jobs = build_jobs(ctx, rng)
+    execute(ctx, build_jobs(ctx, rng))
+
+
+def replay(ctx, rec):
+    job = dict(rec["case"]["job"])
+    ch = rec["case"]["chunking"]
+    job["chunkings"] = [{k: ch[k] for k in ("rows", "cols", "sched", "nw", "rows2", "cols2") if k in ch}]
+    execute(ctx, {job["func"]: [job]})
+
+
+def execute(ctx, jobs):
     labels = sorted(jobs)
     # one process per group of functions so each JIT compilation happens once
     groups = [[] for _ in range(16)]
